@@ -134,6 +134,10 @@ type BatchCase struct {
 	Script  []Act     `json:"script"`
 	Level   int       `json:"level"`
 	Procs   int       `json:"procs"`
+	// Nest: 2 = the SAME LogMiddleware instance appears twice in the chain
+	// (router level and route level), 3 = two distinct instances are nested;
+	// every level logs its own started/finished records.
+	Nest int `json:"nest,omitempty"`
 }
 
 type logRec struct {
@@ -284,7 +288,20 @@ func checkBatch(c BatchCase) error {
 		}
 	}
 
-	h := mw.Wrap(http.HandlerFunc(func(w http.ResponseWriter, r *http.Request) {
+	levels := 1
+	wrapAll := func(inner http.Handler) http.Handler {
+		switch c.Nest {
+		case 2:
+			levels = 2
+			return mw.Wrap(mw.Wrap(inner))
+		case 3:
+			levels = 2
+			mw2 := httputil.NewLogMiddleware(slog.New(&recHandler{mu: &mu, recs: &recs, min: slog.Level(c.BaseMin)}), slog.Level(c.Level))
+			return mw.Wrap(mw2.Wrap(inner))
+		}
+		return mw.Wrap(inner)
+	}
+	h := wrapAll(http.HandlerFunc(func(w http.ResponseWriter, r *http.Request) {
 		i, err := strconv.Atoi(strings.TrimPrefix(r.Header.Get("X-Idx"), "i"))
 		if err != nil || i < 0 || i >= n {
 			fail("handler invoked with an unknown request: X-Idx=%q", r.Header.Get("X-Idx"))
@@ -498,7 +515,7 @@ func checkBatch(c BatchCase) error {
 		}
 	}
 	for i, p := range per {
-		wantMW := 1
+		wantMW := levels
 		if !mwEnabled {
 			wantMW = 0
 		}
@@ -520,6 +537,9 @@ func checkBatch(c BatchCase) error {
 	}
 	if !mwEnabled {
 		vp.Class("batch:middleware-level-disabled-in-base-logger")
+	}
+	if c.Nest >= 2 {
+		vp.Class(fmt.Sprintf("batch:nested-middleware-%d", c.Nest))
 	}
 	hj := 0
 	for _, r := range c.Reqs {
@@ -543,6 +563,7 @@ var batchProp = vp.Register(vp.Prop[BatchCase]{
 	Gen: func(t *rapid.T) BatchCase {
 		n := rapid.IntRange(2, 12).Draw(t, "requests")
 		c := BatchCase{Level: rapid.SampledFrom([]int{-4, 0, 4}).Draw(t, "level"), BaseMin: rapid.SampledFrom([]int{-8, -8, -4, 0, 4, 8}).Draw(t, "basemin")}
+		c.Nest = rapid.SampledFrom([]int{0, 0, 0, 2, 2, 3}).Draw(t, "nest")
 		var acts []Act
 		for i := 0; i < n; i++ {
 			c.Reqs = append(c.Reqs, ReqSpec{
